@@ -14,6 +14,7 @@ VERIF = gen.VERIF
 WORK = os.path.join(VERIF, 'work')
 
 FAILED_PATTERNS = [
+    (r'unable to prove post-condition of closure', 'closure_postcondition'),
     (r'postcondition not satisfied', 'postcondition'),
     (r'precondition not satisfied', 'precondition'),
     (r'invariant not satisfied', 'invariant'),
